@@ -21,6 +21,32 @@ PROPS = {
         level_note="Trusts Lean's kernel (axioms propext, Classical.choice, Quot.sound), the hand-written bit-precise model, the constants extractor and the harness.",
         technique="Lean 4 proof (invariant by induction over operation sequences, omega arithmetic) + differential correspondence on op sequences",
     ),
+    "C19": dict(
+        modules=["Copia.Props.C19"], namespaces=["Copia.C19"], runner="rust",
+        assumptions=COMMON_ASSUME + [
+            "paths are valid UTF-8 and normalised relative paths (what `discover_local_files` / `find` produce): `to_string_lossy` and non-canonical PathBuf keys such as `./k` are outside the model",
+            "glob_match is modelled in suffix form (a data refinement of the index loop with the same branch order); the index loop itself is tied by the exhaustive correspondence",
+        ],
+        trusted_base=["src/bin/copia/plan.rs and meta.rs are compiled into the harness unchanged via #[path]"],
+        level_text="Kernel-checked theorems for ALL patterns/texts (glob_match ⇔ wildcard semantics, incl. fuel sufficiency), ALL maps/exclude predicates "
+                   "(transfer/skipped/delete = their set definitions, sorted, duplicate-free) and the quick-check decision; the listing parser is modelled and tied "
+                   "by differential runs (its format round-trip theorem: see DESIGN.md). Tie: every (pattern,text) pair up to length 4/5 over {a,b,*,?,.,/} is run on the real "
+                   "glob_match against the declarative semantics, the model on a fixed sample of those plus all disagreements; all metadata relations over a 3-path universe for build_plan.",
+        level_note="Trusts Lean's kernel (axioms propext, Classical.choice, Quot.sound), the hand-written models and the harness.",
+        technique="Lean 4 proof (soundness/completeness of the backtracking matcher by induction on fuel with a measure; list lemmas for the planner) + exhaustive differential correspondence",
+    ),
+    "C15": dict(
+        modules=["Copia.Props.C15"], namespaces=["Copia.C15"], runner="rust",
+        assumptions=COMMON_ASSUME + [
+            "names are valid UTF-8 (`to_string_lossy` is the identity)",
+            "dry-run clause: decided by the black-box correspondence on the real CLI (see DESIGN.md §5 C15); the theorems here cover exclusion semantics, protection and opt-in deletes",
+        ],
+        trusted_base=["src/bin/copia/plan.rs compiled into the harness unchanged via #[path]"],
+        level_text="Kernel-checked theorems: is_excluded ⇔ declarative exclusion (component-wise / whole-path, via glob ⇔ Matches), an excluded path is in neither transfer nor delete, "
+                   "no delete without the flag, deletes only touch paths absent from the source — for all inputs. Tie: exhaustive/differential runs of the real is_excluded/build_plan/glob_match.",
+        level_note="Trusts Lean's kernel, the hand-written model and the harness. The dry-run clause is checked on the real binary, not proved (partial).",
+        technique="Lean 4 proof + exhaustive differential correspondence",
+    ),
     "C18": dict(
         modules=["Copia.Props.C18"], namespaces=["Copia.C18"], runner="rust",
         assumptions=COMMON_ASSUME + [
